@@ -33,7 +33,7 @@ ASSUMPTIONS = ["tasks are hashable with lawful __eq__/__hash__ (tokens mapped to
                "default priority_key; the default given to pop/peek is not the private _REMOVED sentinel",
                "CPython dict preserves insertion order; heapq and bisect.insort meet their documented contracts"]
 TRUSTED = ["Model/C10_Model.v is hand-written; tied to boltons.queueutils / boltons.listutils.BarrelList by the correspondence run",
-           "heapq is modelled by its contract (bag with pop-min), bisect.insort_right as binary search + insert",
+           "heapq is modelled as the algorithm of Lib/heapq.py (heappush/heappop, _siftdown/_siftup), which _heapq.c is trusted to implement; bisect.insort_right as binary search + insert",
            "harness/c10.py serialiser"]
 
 # tokens -> varied hashable python objects, pairwise != (note 1 == True == 1.0: only one of them appears)
@@ -119,7 +119,7 @@ def _gen_q(rng, tier):
 def _gen_large(rng, tier):
     """a few hundred live entries, several sub-lists at _size_factor 4..16"""
     factor = rng.choice([4, 8, 16])
-    n = rng.randint(150, 300) if tier == "quick" else rng.randint(300, 900)
+    n = rng.randint(150, 300) if tier == "quick" else rng.randint(300, 600)
     nprio = rng.choice([1, 3, 10, 1000])
     ops = []
     for i in range(n):
@@ -234,7 +234,7 @@ def _gen_b(rng, tier):
 
 def generate(rng, tier, n):
     nbig = 0 if n < 1000 else (2 if tier == "quick" else 12)
-    nlarge = n // 400 if tier == "quick" else n // 200
+    nlarge = n // 400 if tier == "quick" else n // 1000      # Coq cost is cubic in the number of entries
     nchurn = n // 160 if tier == "quick" else n // 600
     # the 200 KB cases first so that their coqc jobs overlap with all the others; then a block of small cases (a
     # defect that shows on small histories is then reported and shrunk from those, cheaply); then the long ones
